@@ -535,6 +535,9 @@ class Interp:
             ga = self.lib.model_getattr(self, obj, attr)
             if ga is not NotImplemented:
                 return ga
+            if self.auto_field(ci, attr):
+                self.nonnull(obj, attr)
+                return self.read_field(cn, attr, obj.t)
             raise Unsupported(f"attribute {cn}.{attr} is not modelled")
         if isinstance(obj, ExcVal):
             return self.lib.exc_getattr(self, obj, attr)
@@ -562,6 +565,34 @@ class Interp:
         if ga is not NotImplemented:
             return ga
         raise Unsupported(f"attribute {attr} of {obj!r}")
+
+    def auto_field(self, ci, attr):
+        """A field the spec does not declare (e.g. added by an edit): declared on the fly when the class's own
+        __init__ initialises it with a bool / int constant (the type is then known); anything else stays unsupported."""
+        if ci.source is None or ci.kind != "user" or attr.startswith("$"):
+            return False
+        if attr in ci.fields:
+            return True
+        modpath, qual = ci.source
+        node = extract.module(modpath).defs.get(f"{qual}.__init__")
+        if node is None:
+            return False
+        for n in ast.walk(node):
+            tgt = None
+            if isinstance(n, ast.Assign) and len(n.targets) == 1:
+                tgt, val = n.targets[0], n.value
+            elif isinstance(n, ast.AnnAssign) and n.value is not None:
+                tgt, val = n.target, n.value
+            if isinstance(tgt, ast.Attribute) and isinstance(tgt.value, ast.Name) and tgt.value.id == "self" and tgt.attr == attr and isinstance(val, ast.Constant):
+                if isinstance(val.value, bool):
+                    ci.fields[attr] = BOOL
+                elif isinstance(val.value, int):
+                    ci.fields[attr] = INT
+                else:
+                    return False
+                self.ctx.notes.append(f"auto-declared field {ci.name}.{attr}")
+                return True
+        return False
 
     def nonnull(self, obj, attr):
         """Attribute access on None raises AttributeError in Python; the verified code never relies on
@@ -609,6 +640,10 @@ class Interp:
                 return
             r = self.lib.model_setattr(self, obj, attr, val)
             if r is not NotImplemented:
+                return
+            if self.auto_field(ci, attr):
+                ty = ci.fields[attr]
+                self.st.put(cn, attr, obj.t, self.term(self.coerce(val, ty), ty))
                 return
             raise Unsupported(f"store to undeclared field {cn}.{attr}")
         if isinstance(obj, ExcVal):
